@@ -54,6 +54,17 @@ static sf_count_t vox_write_d (SF_PRIVATE *psf, const double *ptr, sf_count_t le
 
 static int vox_read_block (SF_PRIVATE *psf, IMA_OKI_ADPCM *pvox, short *ptr, int len) ;
 
+/*
+**	The codec packs two samples into a byte. A call that moves an odd number of
+**	samples leaves half a byte over: the sample concerned waits here for the
+**	next call instead of being dropped (read) or padded with a zero (write).
+*/
+typedef struct
+{	IMA_OKI_ADPCM	codec ;		/* Must be first, codec_data is also used as an IMA_OKI_ADPCM*. */
+	int				have_pending ;
+	short			pending ;
+} VOX_PRIVATE ;
+
 /*------------------------------------------------------------------------------
 */
 
@@ -61,6 +72,16 @@ static int
 codec_close (SF_PRIVATE * psf)
 {
 	IMA_OKI_ADPCM * p = (IMA_OKI_ADPCM *) psf->codec_data ;
+	VOX_PRIVATE * pvox = (VOX_PRIVATE *) psf->codec_data ;
+
+	if (psf->file.mode == SFM_WRITE && pvox->have_pending)
+	{	/* The very last sample has no partner, the encoder pads the byte with a zero sample. */
+		p->pcm [0] = pvox->pending ;
+		p->pcm_count = 1 ;
+		pvox->have_pending = 0 ;
+		ima_oki_adpcm_encode_block (p) ;
+		psf_fwrite (p->codes, 1, p->code_count, psf) ;
+		} ;
 
 	if (p->errors)
 		psf_log_printf (psf, "*** Warning : ADPCM state errors: %d\n", p->errors) ;
@@ -77,11 +98,10 @@ vox_adpcm_init (SF_PRIVATE *psf)
 	if (psf->file.mode == SFM_WRITE && psf->sf.channels != 1)
 		return SFE_CHANNEL_COUNT ;
 
-	if ((pvox = malloc (sizeof (IMA_OKI_ADPCM))) == NULL)
+	if ((pvox = calloc (1, sizeof (VOX_PRIVATE))) == NULL)
 		return SFE_MALLOC_FAILED ;
 
 	psf->codec_data = (void*) pvox ;
-	memset (pvox, 0, sizeof (IMA_OKI_ADPCM)) ;
 
 	if (psf->file.mode == SFM_WRITE)
 	{	psf->write_short	= vox_write_s ;
@@ -123,7 +143,13 @@ vox_adpcm_init (SF_PRIVATE *psf)
 
 static int
 vox_read_block (SF_PRIVATE *psf, IMA_OKI_ADPCM *pvox, short *ptr, int len)
-{	int	indx = 0, k ;
+{	VOX_PRIVATE *pvp = (VOX_PRIVATE *) pvox ;
+	int	indx = 0, k ;
+
+	if (pvp->have_pending && len > 0)
+	{	ptr [indx ++] = pvp->pending ;
+		pvp->have_pending = 0 ;
+		} ;
 
 	while (indx < len)
 	{	pvox->code_count = (len - indx > IMA_OKI_ADPCM_PCM_LEN) ? IMA_OKI_ADPCM_CODE_LEN : (len - indx + 1) / 2 ;
@@ -139,9 +165,12 @@ vox_read_block (SF_PRIVATE *psf, IMA_OKI_ADPCM *pvox, short *ptr, int len)
 
 		ima_oki_adpcm_decode_block (pvox) ;
 
-		/* An odd request decodes one sample more than was asked for; never hand it to the caller. */
+		/* An odd request decodes one sample more than was asked for; keep it for the next call. */
 		if (pvox->pcm_count > len - indx)
+		{	pvp->pending = pvox->pcm [len - indx] ;
+			pvp->have_pending = 1 ;
 			pvox->pcm_count = len - indx ;
+			} ;
 
 		memcpy (&(ptr [indx]), pvox->pcm, pvox->pcm_count * sizeof (short)) ;
 		indx += pvox->pcm_count ;
@@ -270,19 +299,34 @@ vox_read_d (SF_PRIVATE *psf, double *ptr, sf_count_t len)
 
 static int
 vox_write_block (SF_PRIVATE *psf, IMA_OKI_ADPCM *pvox, const short *ptr, int len)
-{	int	indx = 0, k ;
+{	VOX_PRIVATE *pvp = (VOX_PRIVATE *) pvox ;
+	int	indx = 0, k ;
 
 	while (indx < len)
-	{	pvox->pcm_count = (len - indx > IMA_OKI_ADPCM_PCM_LEN) ? IMA_OKI_ADPCM_PCM_LEN : len - indx ;
+	{	pvox->pcm_count = 0 ;
 
-		memcpy (pvox->pcm, &(ptr [indx]), pvox->pcm_count * sizeof (short)) ;
+		if (pvp->have_pending)
+		{	pvox->pcm [pvox->pcm_count ++] = pvp->pending ;
+			pvp->have_pending = 0 ;
+			} ;
+
+		k = (len - indx > IMA_OKI_ADPCM_PCM_LEN - pvox->pcm_count) ? IMA_OKI_ADPCM_PCM_LEN - pvox->pcm_count : len - indx ;
+		memcpy (pvox->pcm + pvox->pcm_count, &(ptr [indx]), k * sizeof (short)) ;
+		pvox->pcm_count += k ;
+		indx += k ;
+
+		if (pvox->pcm_count % 2 == 1)
+		{	/* Half a byte: the last sample waits for the next call (or for close). */
+			pvp->pending = pvox->pcm [-- pvox->pcm_count] ;
+			pvp->have_pending = 1 ;
+			if (pvox->pcm_count == 0)
+				break ;
+			} ;
 
 		ima_oki_adpcm_encode_block (pvox) ;
 
 		if ((k = (int) psf_fwrite (pvox->codes, 1, pvox->code_count, psf)) != pvox->code_count)
 			psf_log_printf (psf, "*** Warning : short write (%d != %d).\n", k, pvox->code_count) ;
-
-		indx += pvox->pcm_count ;
 		} ;
 
 	return indx ;
